@@ -54,6 +54,10 @@ def gen_dname(rng, used, auto_bat=False):
         elif rng.random() < 0.06:
             # whole names that spell an extension or a special name of the documentation, with any extension or none
             name, ext = rng.choice(["bas", "BAS", "bin", "Bin", "txt", "TXT", "bat", "auto", "AUTO", "dat", "a"]), rng.choice(["", "", "", "bas", "bat", "txt", "a", "bat,a", "txt,a", "bin,A"])
+        elif rng.random() < 0.04:
+            # near misses of the documented rules: a whole name that only ends or begins like AUTO.BAT, a dot-less name that ends like an extension rule
+            name, ext = rng.choice([("noauto", "bat"), ("xauto", "BAT"), ("autox", "bat"), ("my.auto", "bat"), ("auto", "ba"), ("auto", "bas"), ("uto", "bat"),
+                                    ("xbas", ""), ("abin", ""), ("atxt", ""), ("x.bas", "x"), ("bas", "bin")])
         else:
             n = rng.choice([1, 2, 3, 5, 7, 8, 8])
             name = "".join(rng.choice(DNAME) for _ in range(n))
